@@ -14,6 +14,7 @@ import (
 	"sort"
 	"strconv"
 	"strings"
+	"sync"
 	"time"
 
 	"github.com/ohler55/slip/pkg/repl"
@@ -737,18 +738,36 @@ func c20RunCfg(c *lib.Ctx) (int, int) {
 		reqs[i] = cs.modelRequest()
 	}
 	replies := c.Model(reqs)
+	// every REPL process idles about 0.2 s: run the cases on a few workers, report in case order
+	problems := make([]*c20Problem, len(cases))
+	var wg sync.WaitGroup
+	next := make(chan int)
+	for w := 0; w < 8; w++ {
+		wg.Add(1)
+		go func(w int) {
+			defer wg.Done()
+			for i := range next {
+				problems[i] = c20RunCfgCase(c, bin, filepath.Join(base, fmt.Sprintf("w%d", w)), cases[i], replies[i])
+			}
+		}(w)
+	}
+	for i := range cases {
+		next <- i
+	}
+	close(next)
+	wg.Wait()
 	agree := 0
 	for i, cs := range cases {
 		n := 0
 		for _, s := range cs.Sessions {
 			n += len(s)
+			c.Ev.Hist("event", "setq-session")
 		}
 		c.Ev.Case(cs.request(), len(cs.Sessions) > 1 || n > 1)
-		c.Ev.Hist("event", "setq-session")
 		if i == 0 || i == len(cases)-1 {
 			c.Ev.Sample(map[string]string{"case": cs.show(), "cell": cs.Cell})
 		}
-		if p := c20RunCfgCase(c, bin, base, cs, replies[i]); p != nil {
+		if p := problems[i]; p != nil {
 			c20Report(c, p, cs.Cell != "")
 		} else {
 			agree++
